@@ -1,6 +1,7 @@
 """C20 -- edit_rules only removes base structures, and only those that fail the filter."""
 from pyvc.runner import Prop, Bounded, script_replay
 from pyvc import effects
+import contracts.edit_rules as er
 
 ALLOWED = {'edit_rules': ["open(grammar_file, 'w')"], '_create_copy': ['shutil.copytree(rule_dir, output_dir)']}
 
@@ -31,7 +32,9 @@ def fs_frame(repo):
 
 PROP = Prop(
     'C20', 'edit_rules only removes base structures, and only those that fail the filter',
-    functions=[],
+    functions=[er.ER + ':edit_length', er.ER + ':edit_terminal_set', er.ER + ':check_regex'],
+    lemmas=lambda: er.allmatch_mono.lemmas(),
+    setup=er.install,
     effects=fs_frame,
     level='other',
     replay=script_replay('replay/edit.py', default_fn='C20'),
@@ -42,11 +45,15 @@ PROP = Prop(
                      clause='grammar.txt afterwards == original lines minus the structures failing a requested filter, survivors textually unchanged and in order; every other '
                             'file byte-identical; --copy leaves the source untouched; every non-Markov guess of the edited trained ruleset is within the length bounds')],
     assumptions=[
-        'the filter functions (re.findall tokenisation, re.search, int() of label digits) are outside the verifiable subset: what they keep and remove is decided only '
-        'within the bounds of C20.bounded.cli; the deductive part is the file-system frame (syntactic, all paths)',
+        're.findall / re.search / str.split / str.strip / int() are uninterpreted functions of their arguments in the deductive part (Toks, ReSearch, ...): that '
+        "''.join(Toks(line)) is the structure the line started with (A-TOK, the locus of the repaired defect F12b) and what the regular expressions match are "
+        'decided only within the bounds of C20.bounded.cli',
+        'edit_rules() itself (option plumbing over an untyped dict, file read/write) is not under a functional contract: covered by the frame and the CLI stand-in',
         'the frame does not see writes through aliases of open/shutil or through imported helpers (edit_rules.py imports none of the repository modules)',
     ],
-    explanation='Frame (AST, all paths): the only statements of edit_rules.py that change the file system are open(grammar_file, "w") in edit_rules(), with grammar_file = '
+    explanation='Deductive (all grammars, all parameters, regex engine abstracted): edit_length, edit_terminal_set and check_regex each return exactly the concatenation, in order, '
+                'of the (rebuilt) lines that pass the declarative filter -- labels A/D/O/K/X count their number, Y counts 4, a total of 0 (Markov) is kept, max_length 0 is unbounded; '
+                'every label letter in the terminal set; every regular expression matches the structure. Frame (AST, all paths): the only statements of edit_rules.py that change the file system are open(grammar_file, "w") in edit_rules(), with grammar_file = '
                 '<rules_dir>/<rule>/Grammar/grammar.txt, and shutil.copytree in _create_copy (source -> copy); so no other file of a ruleset is touched. '
                 'Bounded: filter semantics on the real CLI. Known finding F12 (context-sensitive segments counted as one character).',
 )
